@@ -183,9 +183,16 @@ func pThread(p pOp) []SOp {
 	return []SOp{read, p.SOp}
 }
 
-func pairSetup(w *SWorld) {
-	_, err := w.A[0].WriteWithXattrs(ctx, "k", 0, 0, []byte(`{"v":0,"a":{"z":1}}`), map[string][]byte{"_s": []byte(`{"n":0}`), "u": []byte(`{"u":0}`)}, nil, nil)
-	must(err)
+// pairSetup: pre is the state of k before the race: "live", "tomb" (deleted, system xattr kept) or "absent".
+func pairSetup(w *SWorld, pre string) {
+	var err error
+	if pre != "absent" {
+		_, err = w.A[0].WriteWithXattrs(ctx, "k", 0, 0, []byte(`{"v":0,"a":{"z":1}}`), map[string][]byte{"_s": []byte(`{"n":0}`), "u": []byte(`{"u":0}`)}, nil, nil)
+		must(err)
+	}
+	if pre == "tomb" {
+		must(w.A[0].Delete("k"))
+	}
 	must(w.A[0].Set("j", 0, nil, []byte(`{"v":"j"}`)))
 	must(w.A[0].SetRaw("n", 0, nil, []byte("5")))
 	must(w.A[0].PutDDoc(ctx, "dd", &sgbucket.DesignDoc{Views: sgbucket.ViewMap{"v": sgbucket.ViewDef{Map: `function(doc,meta){ if (doc.v !== undefined) emit(meta.id, null); }`}}}))
@@ -204,6 +211,7 @@ func init() {
 			name := "P-" + a.Name + "~" + b.Name
 			check := func(w *SWorld, ops []OpRec, final string) []Violation {
 				var vs []Violation
+				baseRev := int(w.setupRev)
 				// per-feed CAS order; the mutations that reported a CAS must all have been delivered
 				var want []uint64
 				muts := 0
@@ -269,23 +277,29 @@ func init() {
 				}
 				// revision of k = 1 (setup) + successful mutations, unless it was purged in between
 				purge := strings.Contains(name, "PurgeTombstones")
-				if r := rows["sc.A/k"]; r != nil && !purge && int(r.RevSeqNo) != 1+muts {
+				if r := rows["sc.A/k"]; r != nil && !purge && int(r.RevSeqNo) != baseRev+muts {
 					vs = append(vs, Violation{Prop: "C17", Op: name, Pre: "sched", Field: "rev-count", Detail: fmt.Sprintf("%d successful mutations of k after its creation but its revision is %d", muts, r.RevSeqNo)})
 				}
 				return vs
 			}
-			sc := Scenario{Name: name, Prop: []string{"C03"}, Lin: true, Keys: []string{"k", "j", "n"}, Setup: func(w *SWorld) {
-				pairSetup(w)
-				d, _ := rosmar.VerifDumpAll(w.H[0])
-				w.setupMaxCas = d.BucketLastCas
-			}, Threads: [][]SOp{pThread(a), pThread(b)}, Check: check}
 			for _, v := range []struct {
-				disk bool
-				h    int
-			}{{false, 1}, {true, 2}} {
-				s2 := sc
-				s2.Disk, s2.Handles = v.disk, v.h
-				s2.Name = fmt.Sprintf("%s/%s/h%d", name, ifs(v.disk, "disk", "mem"), v.h)
+				pre      string
+				disk     bool
+				h        int
+				thorough bool
+			}{{"live", false, 1, false}, {"live", true, 2, false}, {"absent", false, 1, false}, {"tomb", false, 1, false}, {"absent", true, 2, true}, {"tomb", true, 2, true}} {
+				pre := v.pre
+				s2 := Scenario{Name: name, Prop: []string{"C03"}, Lin: true, Keys: []string{"k", "j", "n"}, Setup: func(w *SWorld) {
+					pairSetup(w, pre)
+					d, _ := rosmar.VerifDumpAll(w.H[0])
+					w.setupMaxCas = d.BucketLastCas
+					w.setupRev = 0
+					if r := rowsOf(d)["sc.A/k"]; r != nil {
+						w.setupRev = r.RevSeqNo
+					}
+				}, Threads: [][]SOp{pThread(a), pThread(b)}, Check: check}
+				s2.Disk, s2.Handles, s2.ThoroughOnly = v.disk, v.h, v.thorough
+				s2.Name = fmt.Sprintf("%s/%s/%s/h%d", name, v.pre, ifs(v.disk, "disk", "mem"), v.h)
 				c := s2
 				RegisterScenario(&c)
 			}
